@@ -91,7 +91,11 @@ pub struct Filter {
 #[serde(tag = "e", rename_all = "lowercase")]
 pub enum Step {
     // ---- API calls -------------------------------------------------------------------------
-    Conn {},
+    Conn {
+        /// the director promises a healthy transport and a conformant, accepting broker
+        #[serde(default)]
+        healthy: bool,
+    },
     Publish {
         qos: u8,
         topic: Bytes,
@@ -157,7 +161,7 @@ impl Step {
     pub fn is_call(&self) -> bool {
         matches!(
             self,
-            Step::Conn {}
+            Step::Conn { .. }
                 | Step::Publish { .. }
                 | Step::Subscribe { .. }
                 | Step::Unsubscribe { .. }
